@@ -40,6 +40,17 @@ static void run_case(const Geom &g, const Opt &o, bool emit, int big_threshold) 
   out.begin("RT").i("case", n_cases).s("gt", g.is_mesh ? "mesh" : "pc").s("shape", g.shape).s("m", m).i("sub", o.submethod).i("es", o.es).i("ds", o.ds)
       .b("builtin", o.builtin).i("split", o.split).i("pred", o.pred).arr("qbits", o.qbits).b("expert", o.expert)
       .b("eok", e1.ok).s("err", e1.err).i("bytes", (long long)e1.bytes.size());
+  {  // input class of finding F20: sequential mesh, compressed connectivity, and fewer than 3 stream bytes per face left behind the two counts
+     // (facts about the options and the stream; the decoder's "faces <= remaining bytes / 3" plausibility guard assumes stored indices)
+    auto vlen = [](uint64_t x) { int n = 1; while (x >= 128) { x >>= 7; ++n; } return n; };
+    bool short3 = false;
+    if (e1.ok && g.is_mesh && m == "seq") {
+      const uint64_t nf = g.mesh()->num_faces(), np = in.num_points();
+      const long long rem = (long long)e1.bytes.size() - 11 - vlen(nf) - vlen(np);
+      short3 = (long long)nf > rem / 3;
+    }
+    out.b("cc", o.compress_conn).b("short3", short3);
+  }
   {  // input class flag: two points with identical value indices in every attribute (points not deduplicated; finding F10)
     std::set<std::vector<uint32_t>> seen;
     bool dup = false;
